@@ -95,6 +95,11 @@ pub struct DelegCase {
     /// earlier applies_default_impl() clause must keep its priority (first declared wins)
     #[serde(default)]
     pub later_answering_clause: bool,
+    /// > 0: the applies_default_impl() clause is `..applies_default_impl().n_times(k).then().answers(424242)`,
+    /// k = 1 + (this - 1) % (delegated calls - 1): from delegated call k+1 on the clause answers itself and
+    /// the default body (and the required methods) must not run
+    #[serde(default)]
+    pub then_answer_after: u8,
 }
 
 /// response of required method m for argument x (a known function, so results can be predicted)
@@ -103,10 +108,21 @@ pub fn required_result(m: u8, x: u32) -> u32 {
 }
 
 impl DelegCase {
+    /// number of delegated calls answered by the default body before the clause answers itself
+    pub fn default_body_calls(&self) -> Option<usize> {
+        let delegated = self.history.iter().filter(|o| matches!(o, Op::Delegated(..))).count();
+        if self.then_answer_after > 0 && self.explicit_default_impl && !self.ordered && delegated >= 2 {
+            Some(1 + (self.then_answer_after as usize - 1) % (delegated - 1))
+        } else {
+            None
+        }
+    }
     /// Inline the body: (all required-method calls in order, results of the history ops)
     pub fn expected(&self) -> (Vec<(u8, u32)>, Vec<u32>) {
         let mut calls = vec![];
         let mut results = vec![];
+        let limit = self.default_body_calls();
+        let mut delegated_seen = 0usize;
         for op in &self.history {
             match op {
                 Op::Direct(m, x) => {
@@ -114,6 +130,11 @@ impl DelegCase {
                     results.push(required_result(*m, *x));
                 }
                 Op::Delegated(a, b) => {
+                    delegated_seen += 1;
+                    if limit.map(|k| delegated_seen > k).unwrap_or(false) {
+                        results.push(424242);
+                        continue;
+                    }
                     let mut vs = vec![];
                     for (m, e) in &self.body.calls {
                         let x = e.eval(*a, *b, &vs);
@@ -220,7 +241,11 @@ pub fn source(c: &DelegCase) -> String {
         .iter()
         .filter(|o| matches!(o, Op::Delegated(..)))
         .count();
-    if c.explicit_default_impl && delegated > 0 && !c.ordered {
+    if let Some(k) = c.default_body_calls() {
+        clauses.push(format!(
+            "M::d.each_call(&|m| m.func(|_, _| true)).applies_default_impl().n_times({k}).then().answers(&|_, _, _| 424242u32)"
+        ));
+    } else if c.explicit_default_impl && delegated > 0 && !c.ordered {
         clauses.push(format!(
             "M::d.each_call(&|m| m.func(|_, _| true)).applies_default_impl().n_times({delegated})"
         ));
@@ -362,6 +387,7 @@ pub fn judge(c: &DelegCase, line: &str) -> Result<CaseInfo, String> {
         "applies_default_impl-clause",
     )
     .class_if(c.explicit_default_impl && !c.ordered && c.later_answering_clause && delegated > 0, "later-clause-of-the-provided-method-also-matches")
+    .class_if(c.default_body_calls().is_some(), "default-body-for-k-calls-then-the-clause-answers")
     .class_if(interleaved, "direct-call-between-delegated")
     .class_if(delegated == 0, "no-delegated-call")
     .class_if(c.body.calls.is_empty(), "body-calls-nothing"))
@@ -410,8 +436,9 @@ pub fn case_strategy() -> impl Strategy<Value = DelegCase> {
         any::<bool>(),
         proptest::bool::weighted(0.4),
         any::<bool>(),
+        prop_oneof![2 => Just(0u8), 1 => 1..8u8],
     )
-        .prop_map(|(recv, mut body, mut history, ordered, explicit_default_impl, partial, later_answering_clause)| {
+        .prop_map(|(recv, mut body, mut history, ordered, explicit_default_impl, partial, later_answering_clause, then_answer_after)| {
             if recv == Recv::Value {
                 // a by-value receiver is consumed by the first call it is passed to
                 body.calls.truncate(1);
@@ -420,7 +447,7 @@ pub fn case_strategy() -> impl Strategy<Value = DelegCase> {
                 }
                 history.truncate(1);
             }
-            DelegCase { recv, body, history, ordered, explicit_default_impl, partial, later_answering_clause }
+            DelegCase { recv, body, history, ordered, explicit_default_impl, partial, later_answering_clause, then_answer_after }
         })
 }
 
